@@ -21,9 +21,9 @@ BOUNDS = {"quick": {"history_depth": 3, "dicke_n": 8, "flip_n": 6}, "thorough": 
 S2 = 1 / np.sqrt(2)
 SYM = {n: sympy.Symbol(n) for n in "abc"}
 
-ROOTS = [["n", [1, 0]], ["n", [0, 0, 0, 1]], ["n", [S2, S2]], ["n", [S2, [0, S2]]], ["n", [0.6, 0.8]], ["n", [0.5, 0.5, 0.5, 0.5]], ["n", [0.6, 0, 0, [0, 0.8]]],
+ROOTS = [["n", [1, 0]], ["n", [0, 0, 0, 1]], ["n", [S2, S2]], ["n", [S2, [0, S2]]], ["n", [0.6, 0.8]], ["n", [0.5, 0.5, 0.5, 0.5]], ["n", [0.6, 0, 0, [0, 0.8]]], ["n", [0.5, [0, 0.5], [0, -0.5], 0.5]],
          ["s", ["a", "b"]], ["s", ["a", 0.6]], ["s", ["a", 0.5, "b", 0.5]]]
-VALUES = [0, 1, 0.6, 0.8, 0.5, S2, [0, S2], -0.6, "a", "c"]
+VALUES = [0, 1, 0.6, 0.8, 0.5, S2, [0, S2], [0, -S2], -0.6, "a", "c"]
 BIND_VALUES = [0.5, 0.1, 0.9, 0.6, "c"]
 
 
@@ -119,6 +119,20 @@ def step(case):
     if not ok:
         return {"ok": False, "msg": "root violates the invariant: " + why, "sig": "root", "key": None}
     n_acc = n_rej = 0
+
+    def observe(w, when):
+        """every state along the history is QUERIED (so state cached by a query cannot go stale unnoticed)"""
+        sn = snapshot(w)
+        if all(isinstance(e, list) for e in sn):
+            amps = np.array([complex(e[0], e[1]) for e in sn])
+            p = np.asarray(w.get_probabilities(), dtype=float).reshape(-1)
+            if p.shape != amps.shape or not np.allclose(p, np.abs(amps) ** 2, atol=1e-9):
+                return {"ok": False, "msg": "get_probabilities %s is not |amplitude|^2 of the current amplitudes" % when, "expected": str((np.abs(amps) ** 2).tolist()), "observed": str(p.tolist()),
+                        "sig": "probabilities:stale", "key": None}
+        return None
+    bad = observe(wf, "on the fresh object")
+    if bad:
+        return bad
     for ev in case["hist"]:
         before = snapshot(wf)
         if ev[0] in ("set", "setslice"):
@@ -180,6 +194,9 @@ def step(case):
         ok, why = invariant(wf)
         if not ok:
             return {"ok": False, "msg": "after %s the object violates the invariant: %s" % (ev, why), "observed": str(snapshot(wf)), "sig": "invariant", "key": None}
+        bad = observe(wf, "after %s" % (ev,))
+        if bad:
+            return bad
     # state-level observations
     snap = snapshot(wf)
     if all(isinstance(e, list) for e in snap):
